@@ -312,8 +312,7 @@ def shapes(tier):
         out.append(typed_shape(kind))
     out.append(field_level_into_shape())
     out += enum_shapes()
-    if tier == "quick":
-        out = [s for s in out if s.quick]
+    # the whole grid costs ~15 s: quick and thorough run all of it
     return out
 
 
